@@ -923,7 +923,69 @@ fn removed_entry_slice(ctx: &mut Ctx) {
     }
 }
 
+/// Two names (hard links) of ONE symbolic link with a relative target, in directories where that
+/// target resolves to different kinds: same device and inode, different stat() records. -xtype (and
+/// -type under -L) is a function of the record of the name at hand, in either visiting order.
+fn hard_linked_symlink_slice(ctx: &mut Ctx) {
+    use std::ffi::OsStr;
+    let sbx = ctx.sbx.clone();
+    let dir = sbx.join("hl");
+    let _ = std::fs::remove_dir_all(&dir);
+    std::fs::create_dir_all(dir.join("a")).unwrap();
+    std::fs::create_dir_all(dir.join("b/t")).unwrap();
+    std::fs::create_dir_all(dir.join("c")).unwrap();
+    std::fs::write(dir.join("a/t"), b"x").unwrap();
+    std::os::unix::fs::symlink("t", dir.join("a/l")).unwrap();
+    if std::fs::hard_link(dir.join("a/l"), dir.join("b/l")).is_err() || std::fs::hard_link(dir.join("a/l"), dir.join("c/l")).is_err() {
+        ctx.rep.machinery("C13: cannot hard-link a symbolic link here".into());
+        return;
+    }
+    let find = crate::binrun::repo_bin("find");
+    // (roots, tests, expected lines)
+    let cases: Vec<(Vec<&str>, Vec<&str>, Vec<&str>)> = vec![
+        (vec!["hl/a/l", "hl/b/l", "hl/c/l"], vec!["-xtype", "f"], vec!["hl/a/l"]),
+        (vec!["hl/a/l", "hl/b/l", "hl/c/l"], vec!["-xtype", "d"], vec!["hl/b/l"]),
+        (vec!["hl/a/l", "hl/b/l", "hl/c/l"], vec!["-xtype", "l"], vec!["hl/c/l"]),
+        (vec!["hl/c/l", "hl/b/l", "hl/a/l"], vec!["-xtype", "f"], vec!["hl/a/l"]),
+        (vec!["hl/c/l", "hl/b/l", "hl/a/l"], vec!["-xtype", "d"], vec!["hl/b/l"]),
+        (vec!["hl/c/l", "hl/b/l", "hl/a/l"], vec!["-xtype", "l"], vec!["hl/c/l"]),
+        (vec!["hl/b/l", "hl/a/l"], vec!["-xtype", "f"], vec!["hl/a/l"]),
+        (vec!["hl"], vec!["-name", "l", "-xtype", "f"], vec!["hl/a/l"]),
+        (vec!["hl"], vec!["-name", "l", "-xtype", "d"], vec!["hl/b/l"]),
+        (vec!["hl"], vec!["-name", "l", "-xtype", "l"], vec!["hl/c/l"]),
+        (vec!["hl"], vec!["-name", "l", "-type", "l"], vec!["hl/a/l", "hl/b/l", "hl/c/l"]),
+        (vec!["-L", "hl"], vec!["-name", "l", "-type", "f"], vec!["hl/a/l"]),
+        (vec!["-L", "hl"], vec!["-name", "l", "-type", "d"], vec!["hl/b/l"]),
+        (vec!["-L", "hl"], vec!["-name", "l", "-type", "l"], vec!["hl/c/l"]),
+        (vec!["-L", "hl"], vec!["-name", "l", "-xtype", "l"], vec!["hl/a/l", "hl/b/l", "hl/c/l"]),
+        (vec!["-H", "hl/b/l", "hl/a/l", "hl/c/l"], vec!["-maxdepth", "0", "-type", "d"], vec!["hl/b/l"]),
+        (vec!["-H", "hl/b/l", "hl/a/l", "hl/c/l"], vec!["-maxdepth", "0", "-type", "f"], vec!["hl/a/l"]),
+        (vec!["hl"], vec!["-name", "l", "-printf", "%p %Y\\n"], vec!["hl/a/l f", "hl/b/l d", "hl/c/l N"]),
+    ];
+    for (roots, tests, want) in cases {
+        let mut a: Vec<&OsStr> = roots.iter().map(OsStr::new).collect();
+        a.extend(tests.iter().map(OsStr::new));
+        let o = crate::binrun::run(&find, &a, &sbx, &crate::binrun::Opts::default());
+        let mut got: Vec<String> = String::from_utf8_lossy(&o.out).lines().map(|s| s.to_string()).collect();
+        got.sort();
+        ctx.rep.evaluations += 1;
+        ctx.rep.nontrivial += 1;
+        ctx.rep.count("hard_linked_symlink_cases", 1);
+        if o.code != Some(0) || got != want {
+            ctx.rep.violation(
+                &format!("C13 {} on two names of one symbolic link whose relative target resolves differently in each directory", tests.iter().find(|t| t.starts_with("-xtype") || t.starts_with("-type") || t.starts_with("-printf")).unwrap_or(&"?")),
+                format!("find {:?} {:?}: status {:?}, expected {:?}, got {:?}", roots, tests, o.code, want, got),
+                json!({"prop":"C13","hard_linked_symlink":true}),
+            );
+        }
+    }
+    let _ = std::fs::remove_dir_all(&dir);
+}
+
 fn run(ctx: &mut Ctx) {
+    if ctx.shard == 7 % ctx.nshards {
+        hard_linked_symlink_slice(ctx);
+    }
     if ctx.shard == 4 % ctx.nshards {
         follow_word_after_slice(ctx);
     }
